@@ -1,6 +1,6 @@
 (* C12 -- Feed-forward layers compute their documented formulas; Linen and NNX agree. *)
 From Coq Require Import ZArith QArith.
-From Flaxm Require Import Lib.Harness Model.Layers Proofs.Layers.
+From Flaxm Require Import Lib.Harness Model.Layers Proofs.Layers Proofs.ConvT.
 Open Scope Z_scope.
 
 (* Conv: what the code does (jnp.pad with the boundary rule, then a VALID convolution) is the documented direct sum
@@ -48,9 +48,47 @@ Theorem C12_batchnorm_running_extremes : forall old batch, (running 1 old batch 
 Proof. exact running_extremes. Qed.
 Print Assumptions C12_batchnorm_running_extremes.
 
+(* ---- ConvTranspose (one spatial dimension): lax.conv_transpose is a stride-1 convolution over the input dilated by the
+   stride; every output entry is the direct sum over the input rows x[(o + t*d - pa) / s] that the taps meet *)
+Theorem C12_convT_dilated_signal : forall s x, (1 <= s)%nat ->
+  forall u, nth u (dilate s x) [] = if Nat.eqb (u mod s) 0 then nth (u / s) x [] else [].
+Proof. exact nth_dilate. Qed.
+Print Assumptions C12_convT_dilated_signal.
+
+Theorem C12_convT_direct_sum : forall c p x o f, (1 <= cv_stride c)%nat -> (o < length (convT_lin c p x))%nat -> (f < cv_feats c)%nat ->
+  getc (nth o (convT_lin c p x) []) f =
+  zsum (map (fun t => zsum (map (fun ci => getc (tsrc c x (fst (tpads (keff c) (cv_stride c) p)) o t) ci * kget c t ci f) (seq 0 (cv_cin c))))
+            (seq 0 (ksize c))).
+Proof. exact convT_entry. Qed.
+Print Assumptions C12_convT_direct_sum.
+
+(* SAME gives n * s positions, VALID n * s + max(k_eff - s, 0), for every kernel, stride and dilation *)
+Theorem C12_convT_same_length : forall c x, x <> [] -> (1 <= cv_stride c)%nat -> length (convT_lin c TSame x) = (length x * cv_stride c)%nat.
+Proof. exact convT_same_length. Qed.
+Theorem C12_convT_valid_length : forall c x, x <> [] -> (1 <= cv_stride c)%nat ->
+  length (convT_lin c TValid x) = (length x * cv_stride c + (keff c - cv_stride c))%nat.
+Proof. exact convT_valid_length. Qed.
+Print Assumptions C12_convT_valid_length.
+
+(* CIRCULAR: padding the VALID result to whole periods and summing the periods (the layer's reshape + sum) adds up, at
+   every position j of the period, exactly the entries whose shifted index is congruent to j *)
+Theorem C12_convT_circular_wrap : forall P feats left y j f, (0 < P)%nat -> (j < P)%nat -> (f < feats)%nat ->
+  getc (nth j (wrap_sum P feats left y) []) f = resid_sum P left j f y.
+Proof. exact wrap_sum_spec. Qed.
+Print Assumptions C12_convT_circular_wrap.
+
+Example C12_convT_example :
+  let c := mkConv [[[1]]; [[2]]; [[3]]] None 2 1 1 1 1 in
+  let x := [[1]; [10]; [100]] in
+  conv_transpose1d c TValid false x = [[3]; [2]; [31]; [20]; [310]; [200]; [100]] /\
+  conv_transpose1d c TSame false x = [[3]; [2]; [31]; [20]; [310]; [200]] /\
+  conv_transpose1d c TCircular false x = [[103]; [2]; [31]; [20]; [310]; [200]] /\
+  conv_transpose1d c TCircular true x = [[2]; [31]; [20]; [310]; [200]; [103]].
+Proof. vm_compute. repeat split; reflexivity. Qed.
+
 (* NOT proved (decided per run against the independent numpy reference and, for Dense / Conv1D / Embed / pooling /
    BatchNorm statistics, against this model): DenseGeneral / Einsum axis arithmetic, 2-D convolutions, ConvLocal,
-   ConvTranspose, the normalised outputs (square roots), GroupNorm / InstanceNorm / RMSNorm, Dropout, Linen = NNX. *)
+   the normalised outputs (square roots), GroupNorm / InstanceNorm / RMSNorm, Dropout, Linen = NNX. *)
 Example C12_example :
   let c := mkConv [[[1]; [0]]; [[0]; [2]]; [[1]; [1]]] (Some [1]) 2 1 1 2 1 in
   let x := [[1; 2]; [3; 4]; [5; 6]; [7; 8]; [9; 10]] in
